@@ -268,7 +268,7 @@ func (ir *ifdReader) ParseSubSecTime(t Tag) uint16 {
 
 func (ir *ifdReader) parseLensInfo(t Tag) LensInfo {
 	if !t.IsEmbedded() {
-		buf, err := ir.readTagValue()
+		buf, err := ir.readTagValueMin(t, 32)
 		if err != nil {
 			return LensInfo{}
 		}
@@ -286,7 +286,7 @@ func (ir *ifdReader) parseLensInfo(t Tag) LensInfo {
 func (ir *ifdReader) ParseRationalU(t Tag) [2]uint32 {
 	switch t.Type {
 	case tag.TypeSignedRational, tag.TypeRational:
-		buf, err := ir.readTagValue()
+		buf, err := ir.readTagValueMin(t, 8)
 		if err != nil {
 			return [2]uint32{}
 		}
@@ -373,7 +373,7 @@ func (ir *ifdReader) ParseBuffer(t Tag) []byte {
 // Non-embedded tag with 20 byte length.
 func (ir *ifdReader) ParseDate(t Tag) time.Time {
 	if t.IsType(tag.TypeASCII) {
-		buf, err := ir.readTagValue()
+		buf, err := ir.readTagValueMin(t, 19)
 		if err != nil {
 			return time.Time{}
 		}
@@ -399,7 +399,7 @@ func (ir *ifdReader) ParseDate(t Tag) time.Time {
 // Non-embedded tag with 6 byte length.
 func (ir *ifdReader) ParseOffsetTime(t Tag) *time.Location {
 	if t.IsType(tag.TypeASCII) {
-		buf, err := ir.readTagValue()
+		buf, err := ir.readTagValueMin(t, 6)
 		if err != nil {
 			return time.UTC
 		}
@@ -433,7 +433,7 @@ func (ir *ifdReader) ParseGPSCoord(t Tag) float64 {
 	if t.UnitCount == 3 {
 		switch t.Type {
 		case tag.TypeRational, tag.TypeSignedRational: // Some cameras write tag out of spec using signed rational. We accept that too.
-			buf, err := ir.readTagValue()
+			buf, err := ir.readTagValueMin(t, 24)
 			if err != nil {
 				return 0.0
 			}
@@ -454,7 +454,7 @@ func (ir *ifdReader) ParseGPSAltitude(t Tag) float32 {
 	if t.UnitCount == 1 {
 		switch t.Type {
 		case tag.TypeRational, tag.TypeSignedRational: // Some cameras write tag out of spec using signed rational. We accept that too.
-			buf, err := ir.readTagValue()
+			buf, err := ir.readTagValueMin(t, 8)
 			if err != nil {
 				return 0.0
 			}
@@ -470,7 +470,7 @@ func (ir *ifdReader) ParseGPSAltitude(t Tag) float32 {
 // parseGPSTimeStamp parses the GPSTimeStamp tag in UTC.
 func (ir *ifdReader) parseGPSTimeStamp(t Tag) uint32 {
 	if t.UnitCount == 3 && t.Type == tag.TypeRational {
-		buf, err := ir.readTagValue()
+		buf, err := ir.readTagValueMin(t, 24)
 		if err != nil {
 			return 0
 		}
@@ -502,7 +502,7 @@ func (ir *ifdReader) parseGPSTimeStamp(t Tag) uint32 {
 // parseGPSDateStamp parses a GPSDateStamp from the tag
 func (ir *ifdReader) parseGPSDateStamp(t Tag) time.Time {
 	if t.IsType(tag.TypeASCII) {
-		buf, err := ir.readTagValue()
+		buf, err := ir.readTagValueMin(t, 10)
 		if err != nil {
 			return time.Time{}
 		}
@@ -511,8 +511,8 @@ func (ir *ifdReader) parseGPSDateStamp(t Tag) time.Time {
 			return time.Date(int(parseStrUint(buf[0:4])), time.Month(parseStrUint(buf[5:7])), int(parseStrUint(buf[8:10])), 0, 0, 0, 0, time.UTC)
 		}
 		// check recieved value
-		if buf[4] == ':' && buf[7] == ':' && buf[10] == ' ' &&
-			buf[13] == ':' && buf[16] == ':' && len(buf) > 19 {
+		if len(buf) > 19 && buf[4] == ':' && buf[7] == ':' && buf[10] == ' ' &&
+			buf[13] == ':' && buf[16] == ':' {
 			return time.Date(
 				int(parseStrUint(buf[0:4])),
 				time.Month(parseStrUint(buf[5:7])),
